@@ -1,6 +1,6 @@
 """Positive controls: in-memory break variants of the *current* tree that a rule must report on every run.
-They guard against vacuous passes: when the main analysis is silent and a control cannot be applied or is not reported, the run
-fails as ANALYSIS-ERROR (exit 2). When the main analysis already reports violations the control outcome is only recorded (a change
+They guard against vacuous passes: when the main analysis is silent and an applied control is not reported, the run
+fails as ANALYSIS-ERROR (exit 2); a control whose edit site does not exist on the analysed tree is recorded as not applicable. When the main analysis already reports violations the control outcome is only recorded (a change
 that breaks the very construct a control edits must surface as a VIOLATION, not as a broken check)."""
 from __future__ import annotations
 
@@ -25,8 +25,11 @@ def run_controls(names: List[str]) -> Tuple[dict, List[str]]:
             failures.append(f"positive control {name}: {e}")
             continue
         if not res["applied"]:
-            out[name] = "edit site not found"
-            failures.append(f"positive control {name}: the construct it edits was not found (anchor vanished)")
+            # the control edits the source as written; on a tree where that statement is spelled differently the edit has no site. That is no
+            # verdict about the tree: the rule itself ran (its anchors are guarded by AnchorMissing and the instance floors), only this
+            # liveness demonstration is not available. Recorded in the evidence, not a failure (it used to end a behaviour-preserving
+            # rename in exit 2).
+            out[name] = "not applicable on this tree: the statement the control edits is spelled differently"
         elif not res["detected"]:
             out[name] = "not reported"
             failures.append(f"positive control {name}: rule {v.rule} did not report the broken instance ({v.expect})")
